@@ -57,6 +57,13 @@ impl Storage {
     pub fn get_header(&self, hash: &Byte32) -> (r: Option<HeaderView>) ensures r == self.s_header(hash@) { unimplemented!() }
 }
 pub struct PeerSet { pub x: u8 }
+impl PeerSet {
+    pub uninterp spec fn s_len(&self) -> nat;
+    #[verifier::external_body]
+    pub fn is_empty(&self) -> (r: bool) ensures r == (self.s_len() == 0) { unimplemented!() }
+}
+// the pending pool as read in this call: hash -> (transaction, cycles)
+pub uninterp spec fn pool_entry(hash: Seq<u8>) -> Option<(PackedTransaction, u64)>;
 pub struct PendingGuard { pub x: u8 }
 pub struct PendingLock { pub x: u8 }
 pub struct PendingGuardRes { pub x: u8 }
@@ -66,11 +73,10 @@ impl PendingLock {
 }
 impl PendingGuardRes { #[verifier::external_body] pub fn expect(self, m: &str) -> (r: PendingGuard) { unimplemented!() } }
 impl PendingGuard {
-    pub uninterp spec fn s_get(&self, hash: Seq<u8>) -> Option<(PackedTransaction, u64)>;
     #[verifier::external_body]
     pub fn get(&self, hash: &Byte32) -> (r: Option<(PackedTransaction, u64, PeerSet)>)
-        ensures r.is_some() == self.s_get(hash@).is_some(),
-                r.is_some() ==> r.unwrap().0 == self.s_get(hash@).unwrap().0 && r.unwrap().1 == self.s_get(hash@).unwrap().1 { unimplemented!() }
+        ensures r.is_some() == pool_entry(hash@).is_some(),
+                r.is_some() ==> r.unwrap().0 == pool_entry(hash@).unwrap().0 && r.unwrap().1 == pool_entry(hash@).unwrap().1 { unimplemented!() }
     // GATE (C18): only a transaction that verify_tx accepted (with exactly these cycles) enters the pending pool
     #[verifier::external_body]
     pub fn push(&mut self, tx: CoreTxView, cycles: u64) requires tx_verified(tx, cycles) { unimplemented!() }
